@@ -516,6 +516,7 @@ func VerifRun() {
 	var err error
 	vrt.RunActor(func() { err = Run[int64, int64, int64](ctx, d, tr, 0, process, inputCh, make(chan int64, 1)) })
 	_ = err
+	vrt.Unwind(64)
 
 	// ---- obligations on the log ----
 	vrt.Assert("L3: at most one decision", decides <= 1)
